@@ -1,6 +1,6 @@
 (* C13 — subscribers get each emitted event exactly once, in order, only while subscribed.
    Property theorems only; the model is theories/Signals.v, proofs theories/SignalsProofs.v. *)
-From QV Require Import Signals SignalsProofs SignalsInv3 SignalsMain.
+From QV Require Import Signals SignalsProofs SignalsInv3 SignalsMain SignalsQuiesce.
 Local Open Scope N_scope.
 
 (* Reading of the statement.  A run is any sequence of labels accepted by [run] from [init]: every
@@ -38,6 +38,19 @@ Theorem C13_holds_no_event_after_unregister_reply : forall g tr st c,
   clean g -> run g init tr = Some st -> no_event_after_ack [] (dlog st c) = true.
 Proof. exact c13_no_event_after_unregister_reply. Qed.
 Print Assumptions C13_holds_no_event_after_unregister_reply.
+
+(* when the system has come to rest (no internal action enabled: every frame dispatched, every
+   request answered, every queue read) no call of SubscribeID or of a cancel function is still
+   waiting, every subscriber whose cancel reached the abort has its channel closed, and every live
+   subscriber has read exactly s_skip ++ s_all — hence, by C13_holds, every emission of its window:
+   the channel is closed once it cancels, and nothing is lost for a subscriber that keeps reading *)
+Theorem C13_holds_at_rest : forall g tr st s x,
+  clean g -> run g init tr = Some st -> overflow st = false -> quiescent g st = true ->
+  nth_error (subs st) s = Some x ->
+  (forall m, s_pc x <> PWaitReg m) /\ (forall m, s_pc x <> PWaitUnreg m) /\ s_pc x <> PAborting /\
+  (live (s_pc x) = true -> s_got x = s_skip x ++ s_all x).
+Proof. exact c13_at_rest. Qed.
+Print Assumptions C13_holds_at_rest.
 
 (* the pinned tree violates the property along three switches; witnesses by computation *)
 Theorem C13_refuted_sub_unserialised :
